@@ -51,11 +51,15 @@ pub fn run(env: &Env, run: &Run) -> (Stats, Coverage) {
         v
     };
     st.merge(run_family(&fam, |s, st| visit(env, s, st)));
+    st.merge(cpsweep_sequential(|c, st| {
+        visit(env, &from_cps(&[c as u32]), st);
+        visit(env, &from_cps(&[0x65E5, c as u32]), st);
+    }));
     let mapped = (0..0x110000u32).filter(|c| env.ud16.width_map(*c).is_some()).count();
     st.sample(json!({"input": ["U+65E5", "U+FF21", "U+FB01"], "expected": "U+65E5 A U+FB01 (only the fullwidth letter is replaced)"}));
     st.sample(json!({"input": ["U+3000"], "expected": "U+0020 (<wide> 0020)"}));
     let cov = Coverage {
-        rule: format!("every string of length <= {} over 13 symbols + pumped runs and ASCII block strings + every scalar value in 7 templates and next to each of its bit-16..20 aliases through width_mapping_rule of both username profiles; oracle = per-character replacement by the first code point of the <wide>/<narrow> decomposition in the profile crate's UnicodeData, read by an independent reader; idempotence on the output; non-trivial = first mapped character is not at index 0 (copy-on-first-change path with a non-empty prefix)", n),
+        rule: format!("every string of length <= {} over 13 symbols + pumped runs and ASCII block strings + every scalar value in 7 templates and next to each of its 16 other-plane aliases through width_mapping_rule of both username profiles; oracle = per-character replacement by the first code point of the <wide>/<narrow> decomposition in the profile crate's UnicodeData, read by an independent reader; idempotence on the output; non-trivial = first mapped character is not at index 0 (copy-on-first-change path with a non-empty prefix)", n),
         alphabet: json!(sigma.iter().map(|c| format!("U+{:04X}", *c as u32)).collect::<Vec<_>>()),
         bound_completed: format!("length <= {} ({} strings) x 2 profiles; sweep 1,112,064 x 7 templates x 2", n, tree_size(sigma.len(), n)),
         exhaustive: false,
